@@ -13,7 +13,7 @@ import subprocess
 import core
 import workload
 
-STATES = ["valid", "missing", "stale_benign", "stale_foreign", "old_version", "as_found", "keep"]
+STATES = ["valid", "missing", "stale_benign", "stale_foreign", "old_version", "old_version_foreign", "as_found", "keep"]
 N_GENERATED = 48
 
 
@@ -92,6 +92,22 @@ class TableCacheWorld:
             else:
                 self.set_state("stale_benign")
             return
+        if state == "old_version_foreign":
+            # what an older PLY release would have left for the SAME grammar: right signature, older table version,
+            # but tables built differently (here: a perturbed grammar's tables).  The version check must discard it.
+            ff = self._foreign_file()
+            if not ff:
+                self.set_state("old_version")
+                return
+            vns = {}
+            exec(compile(open(self.valid_file).read(), self.valid_file, "exec"), vns)
+            ftext = open(ff).read()
+            new = re.sub(r"_tabversion = '[^']*'", "_tabversion = '3.8'", ftext, count=1)
+            new = re.sub(r"_lr_signature = '(?:[^'\\]|\\.)*'", lambda m: "_lr_signature = " + repr(vns["_lr_signature"]), new, count=1)
+            assert new != ftext
+            with open(self.pt, "w") as f:
+                f.write(new)
+            return
         text = open(self.valid_file).read()
         if state == "stale_benign":
             new = re.sub(r"(_lr_signature = ')", r"\1 ", text, count=1)
@@ -103,10 +119,10 @@ class TableCacheWorld:
         with open(self.pt, "w") as f:
             f.write(new)
 
-    def _incarnate(self, idxs, write_fault, hashseed, want=None, pyflags=(), force_optimize=False, crash_at=None):
+    def _incarnate(self, idxs, write_fault, hashseed, want=None, pyflags=(), force_optimize=False, crash_at=None, subclass=None):
         shutil.rmtree(os.path.join(self.pkg, "__pycache__"), ignore_errors=True)
         job = {"items": [self.W[i] for i in idxs], "write_fault": write_fault, "want_outcomes": want or [],
-               "force_optimize": force_optimize, "crash_at": crash_at}
+               "force_optimize": force_optimize, "crash_at": crash_at, "subclass": subclass}
         r = subprocess.run([core.PY] + list(pyflags) + [os.path.join(core.HERE, "incarnation.py"), self.tree], input=json.dumps(job),
                            stdout=subprocess.PIPE, stderr=subprocess.DEVNULL, text=True, timeout=900,
                            env=core.worker_env(hashseed), cwd=self.workroot)
@@ -133,7 +149,8 @@ class TableCacheWorld:
                  "sample": rs.choice([6, 12, 20])}
         inc = []
         for i in range(n):
-            st = rf.choice(["missing", "stale_benign", "stale_foreign", "stale_foreign", "old_version", "as_found", "keep", "valid"])
+            st = rf.choice(["missing", "stale_benign", "stale_foreign", "stale_foreign", "old_version", "old_version_foreign",
+                            "as_found", "keep", "valid"])
             if i == 0 and st == "keep":
                 st = "stale_foreign"
             wf = rf.random() < swarm["p_write_fault"]
@@ -150,6 +167,11 @@ class TableCacheWorld:
         return {"world": "tablecache", "prop": "C20", "seed": seed, "swarm": swarm, "incarnations": inc}
 
     def execute(self, trace, keep_events=False):
+        if trace.get("subclass_cell"):
+            r = self.subclass_cell(trace["subclass_cell"])
+            if r["violating"]:
+                return r["violating"][0]
+            return {"status": "ok", "violations": [], "trace": trace, "stats": r["stats"]}
         log = core.EventLog(keep=keep_events)
         log.add("trace", decided=True, prop="C20", seed=trace.get("seed"), swarm=trace.get("swarm"),
                 incarnations=trace["incarnations"])
@@ -237,11 +259,51 @@ class TableCacheWorld:
                 "differing_per_chunk": [sum(1 for i in differing if i % 4 == c) for c in range(4)],
                 "foreign": self.foreign_info, "ctor_exc": r.get("ctor_exc")}
 
+    def _subclass_spec(self):
+        """The perturbation used for the foreign table, as a user subclass: (rule name, index of the removed alternative)."""
+        if not self._foreign_file() or not (self.foreign_info or {}).get("perturbed"):
+            return None
+        m = re.match(r"(\w+) minus alternative (\d+)", self.foreign_info["perturbed"])
+        return {"rule": m.group(1), "drop": int(m.group(2))} if m else None
+
+    def subclass_cell(self, state):
+        """A user subclass with another grammar, constructed AFTER a plain DDLParser in the same process, must parse exactly
+        as it does when it is the only parser class of a process.  (Constructing it rewrites the shared cache file with its
+        own tables - the library's behaviour - which is how the 'stale signature, foreign tables' state arises in real life.)"""
+        spec = self._subclass_spec()
+        out = {"status": "ok", "cells": 1, "keys": ["subclass:%s" % state], "violating": [], "stats": collections.Counter()}
+        if spec is None:
+            out["stats"]["subclass_unavailable"] += 1
+            out["stats"] = dict(out["stats"])
+            return out
+        idxs = [i for i in self.small if i % 4 == 0][:12]
+        if getattr(self, "_sub_alone", None) is None:
+            self.set_state("valid")
+            r0 = self._incarnate(idxs, False, 0, subclass=dict(spec, order="sub_first"))
+            self._sub_alone = r0.get("digests")
+        self.set_state(state)
+        r = self._incarnate(idxs, False, 0, subclass=dict(spec, order="base_first"))
+        self.set_state("valid")
+        out["stats"]["incarnations"] += 2
+        out["stats"]["subclass_probes"] += 1
+        out["stats"]["subclass_items_differing_from_base"] = sum(1 for a, i in zip(self._sub_alone or [], idxs) if a != self.baseline[i])
+        if r.get("import_exc") or r.get("ctor_exc") or r.get("digests") != self._sub_alone:
+            bad = [n for n, (a, b) in enumerate(zip(r.get("digests") or [], self._sub_alone or [])) if a != b]
+            res = {"status": "violation", "stats": dict(out["stats"]),
+                   "violations": [{"oracle": "subclass_tables_differ", "state": state, "subclass": spec,
+                                   "observed": r.get("ctor_exc") or r.get("import_exc") or "%d of %d items differ from the subclass-alone outcome" % (len(bad), len(idxs)),
+                                   "item": idxs[bad[0]] if bad else None,
+                                   "ddl": core.short(self.W[idxs[bad[0]]]["ddl"], 400) if bad else None}],
+                   "trace": {"world": "tablecache", "prop": "C20", "seed": 0, "subclass_cell": state, "swarm": {"sweep": ["subclass", state]}}}
+            out["violating"].append(res)
+        out["stats"] = dict(out["stats"])
+        return out
+
     def sweep(self, part, nparts):
         """Fault enumeration: every cache state x {writable, unwritable} x the whole workload."""
         cells = []
         nchunks = 4
-        for st in ["valid", "missing", "stale_benign", "stale_foreign", "old_version", "as_found"]:
+        for st in ["valid", "missing", "stale_benign", "stale_foreign", "old_version", "old_version_foreign", "as_found"]:
             for wf in (False, True):
                 for c in range(nchunks):
                     cells.append((st, wf, c, ()))
